@@ -676,6 +676,43 @@ pub fn run(tier: Tier) -> i32 {
             }
         }
     }
+    // length sweep: the repeatable tails of the grammar (move lists, searchmoves, option names and
+    // values) at every magnitude of token count, with a parameter that has to be read AFTER the long
+    // list and with an ill-typed token at the very end / in the middle of it
+    let n_before_sweep = lines.len();
+    {
+        let mv = ["e2e4", "e7e5", "g1f3", "b8c6", "a7a8q", "h2h1n", "e1g1", "d7d5"];
+        let mut lens: Vec<usize> = (0..=40).collect();
+        let top = if tier == Tier::Quick { 16 } else { 18 };
+        for k in 6..=top {
+            for d in [-1i64, 0, 1] {
+                lens.push(((1i64 << k) + d) as usize);
+            }
+        }
+        for &n in &lens {
+            let list: Vec<&str> = (0..n).map(|i| mv[(i * 5 + i / 8) % mv.len()]).collect();
+            let joined = list.join(" ");
+            let words: Vec<String> = (0..n.max(1)).map(|i| format!("w{}", i % 10)).collect();
+            push(format!("position startpos moves {}", joined), &mut lines);
+            push(format!("position fen rnbqkbnr/pppppppp/8/8/8/8/PPPPPPPP/RNBQKBNR w KQkq - 0 1 moves {}", joined), &mut lines);
+            push(format!("go searchmoves {} depth 3", joined), &mut lines);
+            push(format!("go wtime 1000 searchmoves {} btime 2000", joined), &mut lines);
+            push(format!("setoption name {} value {}", words.join(" "), words.join(" ")), &mut lines);
+            push(format!("setoption name Hash value {}", words.join(" ")), &mut lines);
+            if n > 0 {
+                // the same with one ill-typed token: last, first, middle
+                for bad_at in [n - 1, 0, n / 2] {
+                    let mut l2 = list.clone();
+                    l2[bad_at] = "e2e9";
+                    push(format!("position startpos moves {}", l2.join(" ")), &mut lines);
+                    push(format!("go searchmoves {} depth 3", l2.join(" ")), &mut lines);
+                }
+                push(format!("go searchmoves {} depth x", joined), &mut lines);
+                push(format!("go searchmoves {} depth 3 depth 4", joined), &mut lines);
+            }
+        }
+    }
+    let n_sweep = lines.len() - n_before_sweep;
     let stats: [AtomicU64; 3] = Default::default();
     let t0 = Instant::now();
     par_map(&lines, |l| judge_line(&rep, l, &stats));
@@ -743,6 +780,7 @@ pub fn run(tier: Tier) -> i32 {
     cov.traces_validated = cov.states;
     cov.set("grammar_base_lines", json!(n_base));
     cov.set("distinct_lines_incl_spacing_prefix_substitution_variants", json!(lines.len()));
+    cov.set("length_sweep_lines_up_to_65537_or_262145_tokens", json!(n_sweep));
     cov.set("lines_expected_command", json!(stats[0].load(Ordering::Relaxed)));
     cov.set("lines_expected_error", json!(stats[1].load(Ordering::Relaxed)));
     cov.set("lines_unspecified_no_panic_only", json!(stats[2].load(Ordering::Relaxed)));
